@@ -72,7 +72,10 @@ def build_with_history(rng, d, c):
     add_SPL does) or evaluated, then the geometry of `d` assigned.  Only r2, L and the angle are ever given by the user, so the
     object as defined at call time is unambiguous"""
     if rng.random() < 0.6:
-        return gen.build_shell(d)
+        cc = gen.build_shell(d)
+        for k_ in gen.shell_leftovers(rng, cc, d, prob=0.4):
+            c.tag('left:' + k_)
+        return cc
     pre = dict(d)
     what = str(rng.choice(['angle_assigned_later', 'other_geometry']))
     if what == 'angle_assigned_later':
